@@ -310,26 +310,52 @@ def r_tmpdir(ctx, rule='R-TMPDIR'):
     """an unusable temp directory is *reported*: every temporary node file is created in the configured directory when one is
     configured (so that its IO error surfaces), and a writer derived from another writer keeps the configuration"""
     F = ctx.F
+
+    def from_tmpdir(f, t, depth=0):
+        """does term t (in f) derive from the writer's `tmpdir` field?  Follows parameters to every call site."""
+        if any(y[0] == 'field' and y[2] == 'tmpdir' for y in walk(t)):
+            return True
+        if depth >= 3:
+            return False
+        params = {y[1] for y in walk(t) if y[0] == 'arg' and isinstance(y[1], int)}
+        if not params or any(y[0] == 'call' and not y[1].endswith(('::as_ref', '::as_deref', 'Deref::deref', '::as_path', 'AsRef::as_ref', '::unwrap', '::map')) for y in walk(t)):
+            return False
+        owner = F.fn(owner_path(f)) or f
+        sites = [(g, x) for g in F.lib_fns() for x in g.calls() if x.callee == owner.path or x.resolved == owner.path]
+        if not sites:
+            return False
+        return all(all(i - 1 < len(x.args) and from_tmpdir(g, x.arg_term(i - 1), depth + 1) for i in params) for g, x in sites)
+
+    def guarded(f, c, want, depth=0):
+        """is the call c (in f) executed only when the configured directory is `want` ('None' / 'Some')?"""
+        for s0, x0, e in paths.controlling_conds(f, c.bb):
+            if e[0] == 'disc' and paths.edge_dominates(f, s0, x0, c.bb):
+                subj = strip(e[1])
+                subj = subj[1] if subj[0] == 'discr' else subj
+                if from_tmpdir(f, subj):
+                    return list(e[2]) == ([0] if want == 'None' else [1])
+        if depth >= 3:
+            return False
+        # not decided here: every call site of this function must be guarded
+        owner = F.fn(owner_path(f)) or f
+        sites = [(g, x) for g in F.lib_fns() for x in g.calls() if x.callee == owner.path or x.resolved == owner.path]
+        return bool(sites) and all(guarded(g, x, want, depth + 1) for g, x in sites)
     n = 0
     for f in F.lib_fns():
         for c in f.calls():
-            if not (c.callee.startswith('parallel::TmpNodes') and c.callee.endswith(('::new', '::new_in'))):
-                continue
-            if f.path.startswith('parallel::'):
+            if c.callee not in ('tempfile::tempfile', 'tempfile::tempfile_in'):
                 continue
             n += 1
-            in_dir = c.callee.endswith('::new_in')
-            good = False
-            for s0, x0, e in paths.controlling_conds(f, c.bb):
-                if e[0] == 'disc' and paths.edge_dominates(f, s0, x0, c.bb) and any(y[0] == 'field' and y[2] == 'tmpdir' for y in walk(e[1])):
-                    good = list(e[2]) == ([1] if in_dir else [0])
-            if in_dir and good:
-                good = any(y[0] == 'field' and y[2] == 'tmpdir' for y in walk(c.arg_term(0)))
-            ctx.check(good, rule, '%s/%s#%d' % (f.path, short(c.callee), n), c.loc(),
+            in_dir = c.callee == 'tempfile::tempfile_in'
+            if in_dir:
+                good = from_tmpdir(f, c.arg_term(0))
+            else:
+                good = guarded(f, c, 'None')
+            ctx.check(good, rule, '%s/%s' % (f.path, short(c.callee)), c.loc(),
                       'temporary file created in the configured directory' if in_dir else 'OS temp directory only when no directory is configured',
-                      '`%s` creates its temporary node file %s: a configured but unusable temp directory would not be reported' % (
+                      '`%s` creates a temporary node file %s: a configured but unusable temp directory would not be reported' % (
                           f.path, 'in another directory than the configured one' if in_dir else 'in the OS temp directory even when a directory is configured'))
-    ctx.floor(rule, 'temporary node file constructions in the writer', n, 6)
+    ctx.floor(rule, 'temporary file creations', n, 2)
     # writers derived from a writer keep `tmpdir`
     m = 0
     for f in F.lib_fns():
